@@ -496,6 +496,11 @@ theorem unmarshal_sound_aux (F : Nat) (env : Env) (L : Leaves) (hE : soundEnv F 
       simp only [um, umEnum] at h
       simp only [tyStep]
       split at h
+      · rename_i hm
+        cases h
+        simp only [Bool.and_eq_true] at hm
+        exact isMemberOf_wf hm.1 hx
+      split at h
       · cases h
       · rename_i d hd
         have hwd := wf_load hS hx hd
@@ -1088,16 +1093,16 @@ theorem idempotent (S : Scalar → Bool) (F : Nat) (env : Env) (L : Leaves)
   exact ⟨k, C13.passthroughG S (conformsScalar env) (litConf env) env L hW hP k t r hwf hk⟩
 
 /-- **Idempotence on the unconditional core** (int, bool, float, str — `True` in an `int` position
-    and int-mixin enum members included; enums without str mix-in): no hypothesis about the leaves. -/
+    and int-mixin enum members included; every enum, str mix-in or not): no hypothesis about the
+    leaves and none about the enum classes. -/
 theorem idempotent_core (F : Nat) (env : Env) (today : Int)
-    (hE : soundEnv F env = true) (hW : wfEnv S0 env = true) (hns : ∀ c, isStrMixin env c = false)
+    (hE : soundEnv F env = true) (hW : wfEnv S0 env = true)
     (n : Nat) (t : Ty) (x r : Val) (hwf : wfTy S0 env t = true) (hN : noneDepthOk F t = true)
     (hx : wfVal env x = true) (h : um env (pyLeaves env today) n t x = .ok r) :
     um env (pyLeaves env today) (n + F) t r = .ok r :=
   C13.passthroughG S0 (conformsScalar env) (litConf env) env _ hW
     { leafPass := pyLeaves_pass_conf env today
-      litPass := litConf_pass env
-      enumPass := C13.enumPass_of_noStrMixin env _ hns }
+      litPass := litConf_pass env }
     (n + F) t r hwf
     (unmarshal_sound_py F env today hE n t x r hN hx h)
 
@@ -1127,7 +1132,7 @@ example : conforms C01.exEnv (5 + 3) (.cls 0) (C01.leaf 7) = true :=
   unmarshal_sound_py 3 C01.exEnv 0 (by decide) 5 (.cls 0) exIn _ (by decide) (by decide) (by rfl)
 example : um C01.exEnv (pyLeaves C01.exEnv) (5 + 3) (.cls 0) (C01.leaf 7) = .ok (C01.leaf 7) :=
   idempotent_core 3 C01.exEnv 0 (by decide) (by decide)
-    (by intro c; match c with | 0 => rfl | _ + 1 => rfl) 5 (.cls 0) exIn _ (by decide) (by decide) (by decide) (by rfl)
+    5 (.cls 0) exIn _ (by decide) (by decide) (by decide) (by rfl)
 
 /-- `class E(IntEnum): A = 1; B = 2` -/
 def enumEnv : Env :=
